@@ -382,18 +382,16 @@ class YP(object):
             name = term._name
             args = []
 
-        remaining_clauses = self._predicates_store.get((name, len(args)), [])[:]
-        i = 0
-        while i < len(remaining_clauses):
-            clause = remaining_clauses[i]
-            match = False
+        # logical update view: work on the facts that exist now, skip those removed meanwhile,
+        # and remove by identity so that updates made while suspended are not lost
+        key = (name, len(args))
+        for clause in list(self._predicates_store.get(key, [])):
+            if not any(c is clause for c in self._predicates_store.get(key, [])):
+                continue
             for cut in clause.match(args):
-                match = True
-                del remaining_clauses[i]
-                self._update_predicate(self.atom(name), len(args), remaining_clauses)
+                current = self._predicates_store.get(key, [])
+                self._update_predicate(self.atom(name), len(args), [c for c in current if c is not clause])
                 yield False
-            if not match:
-                i += 1
 
     def retractall(self, term):
         '''retractall(Term) removes all dynamic facts matching Term, without backtracking over identical clauses.'''
